@@ -234,3 +234,27 @@ Definition row_checked (row : rx_row) : bool :=
 (* the plan of a match attempt that starts after a non-empty prefix of the slice *)
 Definition row_plan_nz (row : rx_row) : plan :=
   match gen_plan_at ONz (rx_re row) with Some p => p | None => [] end.
+
+(* ------------------------------------------------------------------ text in FRONT of the timestamp
+   An unanchored search tries every byte offset from the left.  [pre_ok r o pre nxt]: at every offset
+   inside the prefix the pattern provably cannot match, judged by the symbolic engine on a window of one
+   byte (followed by anything) or of that byte and the next one (the next byte of the prefix, or [nxt], the
+   first byte after the prefix; None = the slice ends).  o = what is known of the offset of the first
+   prefix byte (OAbs: it is offset 0); later offsets are >= 1. *)
+Definition hd_opt (l : bytes) : option N := match l with [] => None | b :: _ => Some b end.
+Definition win_dead (r : re) (o : org) (w : list sym) (tl : stail) : bool :=
+  match sm sst (S (length w)) r (mkS 0 o w tl []) s_accept with NoMatch => true | _ => false end.
+Definition dead_at (r : re) (o : org) (b1 : N) (nxt : option N) : bool :=
+  if win_dead r o [SyB b1] TAny then true
+  else match nxt with
+       | Some b2 => win_dead r o [SyB b1; SyB b2] TAny
+       | None => win_dead r o [SyB b1] TEnd
+       end.
+Fixpoint pre_ok (r : re) (o : org) (pre : bytes) (nxt : option N) : bool :=
+  match pre with
+  | [] => true
+  | b1 :: l => if dead_at r o b1 (match l with b2 :: _ => Some b2 | [] => nxt end) then pre_ok r ONz l nxt else false
+  end.
+(* the bytes that are dead on their own at every offset: a prefix made of them is always skipped *)
+Definition dead_bytes (r : re) : list N :=
+  filter (fun b => if win_dead r OAbs [SyB b] TAny then win_dead r ONz [SyB b] TAny else false) (map N.of_nat (seq 0 256)).
